@@ -16,16 +16,7 @@ package engine
 //@   pure
 //@   deterministic
 
-//@ func NewParser
-//@   property C15
-//@   requires vm != nil
-//@   nosafety
-//@   modifies vm.operators
-//@   ensures[a-parser-of-its-own] result != nil && fresh(result)
-//@   ensures[reads-under-the-current-double-quotes-flag] result.doubleQuotes == old(vm.doubleQuotes)
-//@   ensures[reads-with-the-current-operators] result.operators == vm.operators
-//@   ensures[starts-without-a-placeholder-or-arguments] result.placeholder == 0 && len(result.args) == 0 && len(result.Vars) == 0
-//@   ensures[the-operator-table-is-only-created-when-missing] old(vm.operators) != nil ==> vm.operators == old(vm.operators)
+//@ -- NewParser: its contract is in verif_contracts_c18curop.go (it also carries C15)
 
 //@ -- the stream TermString.Scan (and the messages of a failed load) write into: a fresh text stream that appends to the
 //@ -- writer given, nothing else set
